@@ -8,7 +8,7 @@ from ..facts import AnalysisBroken, REPO
 from ..interp import normx, nkey, run_all
 from ..chunked import strtoll_model
 
-UNITS = ["evdns"]
+UNITS = ["evdns", "evutil"]
 LEVEL = "other"
 CONFIGS = ["build", "assert"]
 EXPLANATION = (
@@ -596,6 +596,103 @@ def rule_files(P):
     return r
 
 
+def rule_readfile(P):
+    """evutil_read_file_ (the buffer both file readers parse): every read lands inside the block, behind what was read before; the terminator is written inside the block right behind
+    the data; the descriptor is closed once on every path after it was opened; on failure the block is freed and nothing is handed out, on success exactly the block and the count"""
+    from ..prog import HEAP_BASE
+    r = Rule("C39-readfile", "K6", "evutil_read_file_: reads stay inside the block of size length+1, the terminator follows the data, the descriptor is closed once, the block is freed or handed out - never both, never neither", floor=15)
+    f = P.fn("evutil_read_file_")
+    BLK = HEAP_BASE + 20000
+    cases = []
+    for length in (0, 10):
+        for script in ([length], [4, 6], [4, 0], [4, -1], [0], [-1], [3, 3, 4], [10, 5]):
+            cases.append((5, length, BLK, script))
+    cases += [(-1, 10, BLK, []), (5, -1, BLK, []), (5, 10, 0, [])]
+    for fd, length, blk, script in cases:
+        env = {"#typed": 1, "#bytemem": 1, "event_debug_logging_mask_": 0, f.params[0][0]: PStr(b"/etc/hosts"), f.params[1][0]: PRef(None, "#content"), f.params[2][0]: PRef(None, "#len"), f.params[3][0]: 0,
+               "#content": 77, "#len": 77, "#ops": (), "#k": 0}
+
+        def hook(el, e_):
+            n = callee_name(el.e)
+            a = el.e[2]
+            try:
+                if n == "evutil_open_closeonexec_":
+                    return fd
+                if n == "evutil_fd_filesize":
+                    return length
+                if n == "event_mm_malloc_":
+                    e_["#ops"] = e_["#ops"] + (("malloc", evalx(normx(a[0]), e_, P)),)
+                    return blk
+                if n == "event_mm_free_":
+                    e_["#ops"] = e_["#ops"] + (("free", evalx(normx(a[0]), e_, P)),)
+                    return 0
+                if n == "close":
+                    e_["#ops"] = e_["#ops"] + (("close", evalx(normx(a[0]), e_, P)),)
+                    return 0
+                if n == "read":
+                    addr, cnt = evalx(normx(a[1]), e_, P), evalx(normx(a[2]), e_, P)
+                    k = e_["#k"]
+                    e_["#k"] = k + 1
+                    x = script[k] if k < len(script) else 0
+                    got = min(x, cnt) if x > 0 else x
+                    e_["#ops"] = e_["#ops"] + (("read", addr - blk, cnt, got),)
+                    for i in range(max(got, 0)):
+                        e_[("m", addr + i)] = 0x61
+                    return got
+            except EvalError as ex:
+                e_["#err"] = str(ex)
+                return "impure"
+            return None
+        for o in run_all(f, (f.entry, 0), env, lambda el: False, P, hook, max_steps=3000):
+            if o.kind == "exit" and o.why == "noreturn":
+                continue
+            if o.kind != "ret":
+                r.brk("evutil_read_file_(fd %d, length %d, reads %s): %s %s %s" % (fd, length, script, o.kind, o.why, o.env.get("#err", "")))
+                return r
+            try:
+                rv = tevalx(normx(o.at.e[1]), o.env, P, f)
+            except EvalError as ex:
+                r.brk("evutil_read_file_: return value: %s" % ex)
+                return r
+            ops = list(o.env["#ops"])
+            size = ([x[1] for x in ops if x[0] == "malloc"] or [0])[0]
+            reads = [x for x in ops if x[0] == "read"]
+            term = sorted(k[1] - blk for k, v in o.env.items() if isinstance(k, tuple) and k[0] == "m" and v == 0)
+            content, ln = o.env.get("#content"), o.env.get("#len")
+            r.inst((fd, length, blk != 0, tuple(script)), {"open": fd, "file_size": length, "malloc_ok": blk != 0, "read_answers": script, "returns": rv, "actions": [list(x) for x in ops], "content_out": content, "len_out": ln})
+            bad = []
+            pos = 0
+            for _, off, cnt, got in reads:
+                if off != pos or off + cnt > size or cnt < 0:
+                    bad.append("a read of %d byte(s) at offset %d of a block of %d (data so far: %d)" % (cnt, off, size, pos))
+                pos += max(got, 0)
+            opened = fd >= 0
+            if [x for x in ops if x[0] == "close"] != ([("close", fd)] if opened else []):
+                bad.append("descriptor closed %s" % [x for x in ops if x[0] == "close"])
+            failed = (not opened) or length < 0 or not blk or any(x[3] < 0 for x in reads)
+            if failed:
+                if rv == 0 or content not in (0, None) or ln not in (0, None):
+                    bad.append("failure, but returns %r with content %r / length %r" % (rv, content, ln))
+                if blk and [x for x in ops if x[0] == "malloc"] and ("free", blk) not in ops:
+                    bad.append("the block is neither handed out nor freed")
+            else:
+                if rv != 0 or content != blk or ln != pos:
+                    bad.append("success: returns %r, content %r (block %r), length %r (read %d)" % (rv, content, blk, ln, pos))
+                if ("free", blk) in ops:
+                    bad.append("the block is handed out and freed")
+                if term != [pos] or pos >= size:
+                    bad.append("terminator written at offset(s) %s, the data ends at %d, block size %d" % (term, pos, size))
+            if bad:
+                r.bad("K6:evutil_read_file_:%s" % ("bounds" if "read of" in bad[0] or "terminator" in bad[0] else "resources"), "%s:%d" % (f.file, f.line), f.name, "open %d, file size %d, malloc %s, read answers %s: %s" % (fd, length, "ok" if blk else "fails", script, "; ".join(bad)))
+    seen, uniq = set(), []
+    for f_ in r.findings:
+        if f_.key not in seen:
+            seen.add(f_.key)
+            uniq.append(f_)
+    r.findings = uniq
+    return r
+
+
 def rule_search_add(P):
     """search_postfix_add: the stored postfix is the domain without its leading dots, its recorded length is that text's, the copy reads only the caller's string and fits the block"""
     from ..cmem import MEM0, mem_put, mem_str, mem_hook
@@ -652,7 +749,7 @@ def rule_search_add(P):
 def run(ctx, config):
     P = ctx.prog(UNITS, config)
     rules = []
-    for mk in (rule_table, rule_names, rule_options, rule_lines, rule_search_add, rule_hosts, rule_files):
+    for mk in (rule_table, rule_names, rule_options, rule_lines, rule_search_add, rule_hosts, rule_files, rule_readfile):
         try:
             rules.append(mk(P))
         except AnalysisBroken as ex:
